@@ -43,3 +43,54 @@ fn c08_cookie_value_escape_template() {
     }
     kani::cover!(r.is_ok());
 }
+
+// ---- CookieDeserializer: map steps and scalar/str methods from an ARBITRARY cursor (same contract as the urlencoded methods)
+fn any_cookie_cursor(raw: &'static [u8; L], n: usize) -> CookieDeserializer<'static> {
+    let side = if kani::any() { ParsingSide::Name } else { ParsingSide::Value };
+    CookieDeserializer { input: &raw[..n], side }
+}
+fn cookie_is_suffix(de: &CookieDeserializer<'static>, raw: &'static [u8; L], n: usize) -> bool {
+    let (p, l) = (de.input.as_ptr() as usize, de.input.len());
+    l <= n && (l == 0 || p + l == raw.as_ptr() as usize + n)
+}
+fn cookie_map_step_body(n: usize) {
+    use serde::de::MapAccess;
+    let raw: &'static [u8; L] = Box::leak(Box::new(kani::any()));
+    let mut de = any_cookie_cursor(raw, n);
+    let first: bool = kani::any();
+    let mut acc = AmpersandSeparated { de: &mut de, first };
+    if kani::any() {
+        let r = acc.next_key_seed(std::marker::PhantomData::<&str>);
+        if let Ok(Some(k)) = r { assert!(spec_utf8(k.as_bytes()), "cookie map key: valid UTF-8"); }
+    } else {
+        let r = acc.next_value_seed(std::marker::PhantomData::<String>);
+        if let Ok(s) = &r { assert!(spec_utf8(s.as_bytes()), "cookie map value: valid UTF-8"); }
+    }
+    assert!(cookie_is_suffix(&de, raw, n), "cookie decoder cursor stays a suffix of the input");
+    kani::cover!(true);
+}
+//@chunks 5 c08_cookie_map_step_total cookie_map_step_body #[kani::proof] #[kani::unwind(8)] #[kani::stub(alloc::fmt::format, stub_format)] #[kani::stub(crate::percent_encoding::percent_decode, spec_percent_decode)] #[kani::stub(crate::percent_encoding::percent_decode_utf8, spec_percent_decode_utf8)]
+
+macro_rules! cookie_scalar_total {
+    ($body:ident, $t:ty) => {
+        fn $body(n: usize) {
+            let raw: &'static [u8; L] = Box::leak(Box::new(kani::any()));
+            let mut de = any_cookie_cursor(raw, n);
+            kani::assume(de.side == ParsingSide::Value);
+            let r = <$t>::deserialize(&mut de);
+            assert!(cookie_is_suffix(&de, raw, n), "cookie decoder cursor stays a suffix of the input");
+            kani::cover!(r.is_err() || n == 0);
+        }
+    };
+}
+use serde::Deserialize;
+cookie_scalar_total!(cookie_u8_body, u8);
+cookie_scalar_total!(cookie_bool_body, bool);
+cookie_scalar_total!(cookie_i64_body, i64);
+cookie_scalar_total!(cookie_option_body, Option<u8>);
+cookie_scalar_total!(cookie_unit_body, ());
+//@chunks 5 c08_cookie_u8_total cookie_u8_body #[kani::proof] #[kani::unwind(8)] #[kani::stub(alloc::fmt::format, stub_format)] #[kani::stub(crate::percent_encoding::percent_decode, spec_percent_decode)] #[kani::stub(crate::percent_encoding::percent_decode_utf8, spec_percent_decode_utf8)]
+//@chunks 5 c08_cookie_bool_total cookie_bool_body #[kani::proof] #[kani::unwind(8)] #[kani::stub(alloc::fmt::format, stub_format)] #[kani::stub(crate::percent_encoding::percent_decode, spec_percent_decode)] #[kani::stub(crate::percent_encoding::percent_decode_utf8, spec_percent_decode_utf8)]
+//@chunks 5 c08_cookie_i64_total cookie_i64_body #[kani::proof] #[kani::unwind(8)] #[kani::stub(alloc::fmt::format, stub_format)] #[kani::stub(crate::percent_encoding::percent_decode, spec_percent_decode)] #[kani::stub(crate::percent_encoding::percent_decode_utf8, spec_percent_decode_utf8)]
+//@chunks 5 c08_cookie_option_total cookie_option_body #[kani::proof] #[kani::unwind(8)] #[kani::stub(alloc::fmt::format, stub_format)] #[kani::stub(crate::percent_encoding::percent_decode, spec_percent_decode)] #[kani::stub(crate::percent_encoding::percent_decode_utf8, spec_percent_decode_utf8)]
+//@chunks 5 c08_cookie_unit_total cookie_unit_body #[kani::proof] #[kani::unwind(8)] #[kani::stub(alloc::fmt::format, stub_format)] #[kani::stub(crate::percent_encoding::percent_decode, spec_percent_decode)] #[kani::stub(crate::percent_encoding::percent_decode_utf8, spec_percent_decode_utf8)]
